@@ -516,7 +516,7 @@ EXPECTED_PROBES = {
     "C14": ["ff-attempt:forged-validator-set", "ff-forged-set-offered-again", "ff-forged-set-after-forged-join-response"],
     "C15": ["c15-wire-roundtrip", "c15-block-json", "c15-frame-json", "c15-db-events-reloaded", "c15-frame-handover", "wire-rpc"],
     "C16": ["c16-ops-applied", "c16-reopens", "c16-restart-after-kill", "c16-reset-checked"],
-    "C17": ["c17-runtime-suspend", "auto-suspended", "c17-suspended-sync-checked", "c17-leave-then-restart", "c17-maintenance-session-opened", "c17-maintenance-session-closed"],
+    "C17": ["c17-runtime-suspend", "auto-suspended", "c17-suspended-sync-checked", "c17-leave-then-restart", "c17-maintenance-session-opened", "c17-maintenance-session-closed", "c17-suspend-with-routine-in-flight", "c17-starve", "c17-leave-then-restart-driven-to-suspension"],
     "C18": ["c18-block-checked", "c18-liar-among-famous-witnesses"],
     "C20": ["c20-commit-checked", "c20-submit-checked", "c20-call-failed-with-error", "c20-block-delivered-more-than-once"],
 }
